@@ -477,6 +477,8 @@ class MP4Tags(DictProxy, Tags):
         # Always add a padding atom to make things easier
         padding_overhead = len(Atom.render(b"free", b""))
         content_size = get_size(fileobj) - (offset + length)
+        if content_size < 0:
+            raise error("ilst or free atom extends beyond the file")
         padding_size = length - (len(ilst_data) + padding_overhead)
         info = PaddingInfo(padding_size, content_size)
         new_padding = info._get_padding(padding_func)
